@@ -133,6 +133,9 @@ func c03ClipLog(s string) string {
 func TestVerif_C07_Request(t *testing.T) {
 	r := kit.Start(t, "C07")
 	defer r.Finish()
+	if e2eNotReplayed(r) {
+		return
+	}
 	r.Rule("every combination of server-level clientMaxBodySize {unset,-1,1,1000,65536} x path-level {unset,-1,1,777,8192,70000} (then random positive values), two routes per server (one with, one without the path-level value) x request bodies of limit-1, limit, limit+1, 4*limit (default 4 MiB: limit-1, limit, limit+1), streams up to 8 MiB x length-declared and chunked framing (chunk sizes 1..70000) + a lying Content-Length (declared > sent, then half-close), all written on a raw socket. distinct = (limit source, limit class, size relation, framing, outcome class)")
 	r.Assume("a request body shorter than its declared length must not reach the backend as a complete body: buffered mode expects a 4xx and no backend contact; in stream mode only 'no 2xx for a cleanly ended truncated body' is demanded")
 	be, err := e2eNewBackend()
@@ -299,6 +302,9 @@ func TestVerif_C07_Request(t *testing.T) {
 func TestVerif_C07_Response(t *testing.T) {
 	r := kit.Start(t, "C07")
 	defer r.Finish()
+	if e2eNotReplayed(r) {
+		return
+	}
 	r.Rule("every combination of proxy-level serverMaxBodySize {unset,-1,1,1000,65536} x pool-level {unset,-1,1,777,8192,70000} (then random positive values) x backend bodies of limit-1, limit, limit+1, 4*limit (default 4 MiB: limit-1, limit, limit+1), streams up to 8 MiB x length-declared and chunked x a backend that declares more than it sends and closes. distinct = (limit source, limit class, size relation, backend framing, outcome class)")
 	r.Assume("a short (declared > sent) backend body is only generated in buffered mode: in stream mode the status line is on the wire before the gateway can know")
 	be, err := e2eNewBackend()
